@@ -33,7 +33,7 @@ type c19params struct {
 }
 
 func init() {
-	report.Register("C19", report.Check{Level: "model_checking", QuickBudget: 150 * time.Second, ThoroughBudget: 40 * time.Minute, Run: runC19})
+	report.Register("C19", report.Check{Level: "model_checking", QuickBudget: 240 * time.Second, ThoroughBudget: 25 * time.Minute, Run: runC19})
 	explore.Register("C19.race", func(p string) explore.Harness {
 		var pr c19params
 		json.Unmarshal([]byte(p), &pr)
